@@ -55,7 +55,7 @@ impl Prop for C16 {
         false
     }
     fn rule(&self) -> String {
-        "every constant of the shipped data files (decoded independently: flate2 + serde_cbor Value) x every permutation of its <=6 search words, asked as a query with descriptions on. Typeable = every word is [A-Za-z0-9°'] and not `to`, the first word starts with a letter (harness-side predicate; constants without a typeable spelling are counted as outside the quantifier). Oracle: exactly one Ok result, one description whose constant carries every query word, decodes with value/unit/description and a resolvable source, and whose value/unit are the result and equal the value/unit stored in the data file (read without the subject's types). Non-trivial = the phrase has >=2 words; distinct = distinct phrases".into()
+        "every constant of the shipped data files (decoded independently: flate2 + serde_cbor Value) x every permutation of its <=6 search words, asked as a query with descriptions on. Typeable = every word is [A-Za-z0-9°'] and not `to`, the first word starts with a letter (harness-side predicate; constants without a typeable spelling are counted as outside the quantifier). Oracle: exactly one Ok result, one description whose constant carries every query word, decodes with value/unit/description and a source that resolves to the record the data files store under its id (id, description, url), and whose value/unit are the result and equal the value/unit/source id stored in the data file (read without the subject's types). Non-trivial = the phrase has >=2 words; distinct = distinct phrases".into()
     }
     fn assumptions(&self) -> Vec<String> {
         vec!["lookups are made on one in-memory database per worker process".into()]
@@ -118,8 +118,19 @@ impl Prop for C16 {
             return fw::fail(sig("no-description"), format!("{q}: constant without description"));
         }
         if let Some(id) = c.source {
-            if env.db().get_source(id).is_none() {
-                return fw::fail(sig("source"), format!("{q}: source {id} of the constant does not resolve"));
+            match env.db().get_source(id) {
+                None => return fw::fail(sig("source"), format!("{q}: source {id} of the constant does not resolve")),
+                Some(s) => {
+                    // "decodes completely (... and source)": the source it resolves to is the one the data
+                    // files store under that id
+                    static SOURCES: std::sync::OnceLock<Vec<(u64, Option<String>, Option<String>)>> = std::sync::OnceLock::new();
+                    let stored = SOURCES.get_or_init(refdb::sources);
+                    if let Some((_, d, u)) = stored.iter().find(|r| r.0 == id) {
+                        if s.id != id || d.as_deref().map(|d| d != s.description.as_ref()).unwrap_or(false) || (u.is_some() && u.as_deref() != s.url.as_deref()) {
+                            return fw::fail(sig("source-other"), format!("{q}: source {id} of the constant resolves to source {} ({}); the data files store {:?} under that id", s.id, s.description, d));
+                        }
+                    }
+                }
             }
         }
         if &obs::rat_of(&c.value) != value || &obs::unit_parts(&c.unit) != unit {
@@ -151,13 +162,13 @@ impl Prop for C16 {
             want_unit.sort();
             let mut got_unit = unit.clone();
             got_unit.sort();
-            r.value.as_ref() == Some(value) && want_unit == got_unit
+            r.value.as_ref() == Some(value) && want_unit == got_unit && r.source == c.source
         };
         if !cands.iter().any(|r| matches(r)) {
             let r = cands[0];
             return fw::fail(
                 sig("stored-value"),
-                format!("{q}: the tool decodes the constant as {}; the data file stores value {:?} and unit {:?}", d.results[0].short(), r.value.as_ref().map(|v| v.to_string()), r.unit.as_ref().map(obs::unit_parts_of_value)),
+                format!("{q}: the tool decodes the constant as {} with source {:?}; the data file stores value {:?}, unit {:?} and source {:?}", d.results[0].short(), c.source, r.value.as_ref().map(|v| v.to_string()), r.unit.as_ref().map(obs::unit_parts_of_value), r.source),
             );
         }
         fw::pass(words.len() >= 2, fw::hash_str(&format!("{:?}", c.tokens)))
